@@ -159,7 +159,8 @@ class C07(Prop):
     consts = [("applyCacheBits", "APPLY_CACHE_BITS"),
               ("nameInherited", "NAME_INHERITED"), ("nameUndefined", "NAME_UNDEFINED"),
               ("namePrototype", "NAME_PROTOTYPE"), ("nameDefByInherit", "NAME_DEF_BY_INHERIT"),
-              ("nameAlias", "NAME_ALIAS"), ("nameHidden", "NAME_HIDDEN"), ("nameStatic", "NAME_STATIC"),
+              ("nameAlias", "NAME_ALIAS"), ("nameStrictTypes", "NAME_STRICT_TYPES"), ("nameTrueVarargs", "NAME_TRUE_VARARGS"),
+              ("nameVarargs", "NAME_VARARGS"), ("nameHidden", "NAME_HIDDEN"), ("nameStatic", "NAME_STATIC"),
               ("nameNoMask", "NAME_NO_MASK"), ("namePrivate", "NAME_PRIVATE"), ("nameProtected", "NAME_PROTECTED"),
               ("namePublic", "NAME_PUBLIC"),
               ("originDriver", "ORIGIN_DRIVER"), ("originLocal", "ORIGIN_LOCAL"),
